@@ -155,6 +155,10 @@ def gen_case(rng, hist):
     return ops
 
 
+DATA_OPS = {"getb", "getc", "get16", "get32", "get64", "getn", "getcs", "getstr", "write", "writen", "fill",
+            "wbyte", "room", "wmbuf", "wraw", "cut", "slice"}
+
+
 def resolve(ck, dcmd, sym_cases, ophist):
     """replace the symbolic tokens by numbers using the model's cursors; also collects the
     per-op success/failure histogram from the model's return values"""
@@ -165,18 +169,24 @@ def resolve(ck, dcmd, sym_cases, ophist):
     rc, out, err = ck.run(dcmd + ["resolve"], input_text="\n".join(lines) + "\n")
     if rc != 0:
         raise RuntimeError("driver resolve failed: " + err[-300:])
-    cases = []
+    cases, flags = [], []
     for l in out.split("\n"):
         if l == "#case":
             cases.append([])
+            flags.append([False, False])
         elif l == "bad-op":
             raise RuntimeError("generator produced a line the model rejects")
         elif l:
             ok, op = l[0], l[2:]
             cases[-1].append(op)
-            key = op.split(" ")[0] + (":ok" if ok == "1" else ":false")
+            name = op.split(" ")[0]
+            key = name + (":ok" if ok == "1" else ":false")
             ophist[key] = ophist.get(key, 0) + 1
-    return cases
+            if name in DATA_OPS:
+                flags[-1][0 if ok == "1" else 1] = True
+    # non-trivial = the history moves data at least once AND has a bounds test refuse at least once
+    nontriv = set(tuple(c) for c, f in zip(cases, flags) if f[0] and f[1])
+    return cases, nontriv
 
 
 def run(ck):
@@ -191,8 +201,10 @@ def run(ck):
     ]
     ck.cov["rule"] = ("case = fresh 4 slots, random init (fixed reader / fixed writer / dynamic) then 6..35 ops; "
                       "length/offset arguments placed relative to the model's cursors (avail-1, avail, avail+1, "
-                      "write_pos±k), 0, 1, 2^31±k, UINT_MAX-k (k<=40), random 32-bit; distinct = distinct op "
-                      "sequences; every case reaches at least one non-error branch (init)")
+                      "write_pos±k), 0, 1, 2^31±k, UINT_MAX-k (k<=40), random 32-bit; counted as distinct_nontrivial: "
+                      "distinct concrete op sequences of the random stream in which (by the model's return values) at "
+                      "least one data-moving call succeeds AND at least one bounds test refuses a call; corpus cases "
+                      "are run but not counted")
     ck.assumptions += [
         "libc malloc/realloc/memcpy/memmove/memset/memchr/memcmp behave as specified; realloc success is an "
         "oracle (theorems hold for every oracle; the run uses: flag && size <= 64 KiB)",
@@ -205,7 +217,7 @@ def run(ck):
     ck.cov["partial"] = []
     rng = vf.SplitMix(ck.seed * 1000003 + 12)
 
-    ck.compare_cases(hcmd, dcmd, vf.corpus_cases(PID), label="corpus")
+    ck.compare_cases(hcmd, dcmd, vf.corpus_cases(PID), label="corpus", nontrivial=lambda c: False)
     ck.cov["corpus_cases"] = len(vf.corpus_cases(PID))
 
     hist, ophist = {}, {}
@@ -217,8 +229,8 @@ def run(ck):
     while done < ncases:
         nb = min(2500, ncases - done)
         sym = [gen_case(rng, hist) for _ in range(nb)]
-        cases = resolve(ck, dcmd, sym, ophist)
-        nf = ck.compare_cases(hcmd, dcmd, cases, label="random")
+        cases, nontriv = resolve(ck, dcmd, sym, ophist)
+        nf = ck.compare_cases(hcmd, dcmd, cases, label="random", nontrivial=lambda c: tuple(c) in nontriv)
         if first and cases:
             ck.sample(" ; ".join(cases[0][:12]))
             ck.sample(" ; ".join(cases[1][:12]))
